@@ -1,5 +1,6 @@
 """C14 - concurrent validation against shared models equals sequential validation."""
 import copy
+import json
 import itertools
 import sys
 import threading
@@ -115,6 +116,12 @@ def one_run(ctx, sut, fpm, monitors, injector, rng, idx):
         from vlib import refmodel  # pylint: disable=import-outside-toplevel
 
         schema, _tag = gs.any_schema(rng)
+        if isinstance(schema, dict) and len(json.dumps(schema, default=repr)) > 2500:
+            # the scale templates (hundreds of members) are left to the sequential checks: under the line-level
+            # yield injector everything that walks such a tree (the harness's own metaschema check included,
+            # and every rejection, whose message quotes the tree) takes minutes
+            ctx.count("trees.too_large_for_injected_runs")
+            return
         if not isinstance(schema, dict) or not refmodel.metaschema_valid(schema):
             return
         try:
@@ -355,7 +362,7 @@ def size_runs(ctx, sut, fpm, injector):
         "list": sut.Property(sut.Array(sut.Integer(), uniqueItems=True, maxItems=10 ** 6)),
         "when": sut.Property(sut.String(format="date-time"))})
     pool = [{"text": "a" * 5000}, {"text": "a" * 4096 + "b"}, {"list": list(range(60))}, {"list": list(range(59)) + [5]},
-            {"when": "2020-01-01T00:00:00Z" + " " * 2100}, {"text": "a", "list": [1]}]
+            {"when": "2020-01-01T00:00:00Z"}, {"text": "a", "list": [1]}]
     lists = [[copy.deepcopy(pool[(tid + k) % len(pool)]) for k in range(4)] for tid in range(3)]
     import warnings  # pylint: disable=import-outside-toplevel
 
